@@ -475,6 +475,10 @@ func (db *DB) getActiveFileWriteOff() (off int64, err error) {
 				break
 			}
 
+			if off >= db.opt.SegmentSize {
+				break
+			}
+
 			return -1, fmt.Errorf("when build activeDataIndex readAt err: %s", err)
 		}
 	}
